@@ -522,6 +522,7 @@ func init() {
 					// the same Graph object was run before with a larger limit: the limit in force is the one set last
 					spec.PreTasks = 2 + r.intn(4)
 					spec.PreMaxPar = spec.MaxPar + 1 + r.intn(4)
+					spec.PreLink = r.chance(1, 2)
 					cell += "|second-run-lower-limit"
 				}
 				if spec.Policy != "eager" && r.chance(1, 3) {
@@ -702,6 +703,10 @@ func init() {
 			}
 			spec.TickerZero = r.chance(1, 15)
 			spec.Colon = colon
+			if idx >= histCases(maxLen) && !m.DefErr && !m.Cycle && r.chance(1, 8) {
+				// the graph has been run before (a chain of tasks that completed); half of the new tasks depend on one of them
+				spec.PreTasks, spec.PreLink = 2+r.intn(3), true
+			}
 			if idx >= histCases(maxLen) && r.chance(1, 25) {
 				// wide and uncontrolled: one ErrorSkipParents task with dozens of dependents next to dozens of short independent
 				// tasks, everything completing at about the same time (completions of skipped vertices compete with real ones)
